@@ -42,8 +42,9 @@ def other_decorator_build(c):
     return build
 
 
-def run_config(c, start, evs, host, spied, live_spy=False, live_trace=False, builder=None, query=False):
-    """returns (list of per-event visible call lists, final state id, error)"""
+def run_config(c, start, evs, host, spied, live_spy=False, live_trace=False, builder=None, query=False, live_at=0):
+    """returns (list of per-event visible call lists, final state id, error)
+    live_at: when the live flags are switched on: 0 = before start_at, 1 = right after start_at, k + 1 = after k events"""
     log = []
     build = builder or c.build
     if query and builder is None:
@@ -57,14 +58,17 @@ def run_config(c, start, evs, host, spied, live_spy=False, live_trace=False, bui
                     "queued": mhsm.HsmWithQueues}[host]
             hsm = charts.probed_class(base)()
             if host == "queued":
-                hsm.live_spy, hsm.live_trace = live_spy, live_trace
+                if live_at == 0:
+                    hsm.live_spy, hsm.live_trace = live_spy, live_trace
                 hsm.register_live_spy_callback(lambda line: None)
                 hsm.register_live_trace_callback(lambda line: None)
             fns = build(log, spied=spied, counter=hsm._vp_count)
             inv = {getattr(getattr(f, "__wrapped__", f), "__name__"): i for i, f in fns.items()}
             hsm.start_at(fns[start])
             per_step.append(visible(log))
-            for n in evs:
+            for k, n in enumerate(evs):
+                if host == "queued" and live_at == k + 1:
+                    hsm.live_spy, hsm.live_trace = live_spy, live_trace
                 del log[:]
                 hsm._vp_calls = 0
                 if host == "queued":
@@ -80,7 +84,8 @@ def run_config(c, start, evs, host, spied, live_spy=False, live_trace=False, bui
                 dsched.Sched.current = sched
                 try:
                     ao = mao.ActiveObject(name="A")
-                    ao.live_spy, ao.live_trace = live_spy, live_trace
+                    if live_at == 0:
+                        ao.live_spy, ao.live_trace = live_spy, live_trace
                     ao.register_live_spy_callback(lambda line: None)
                     ao.register_live_trace_callback(lambda line: None)
                     marks = []
@@ -90,6 +95,8 @@ def run_config(c, start, evs, host, spied, live_spy=False, live_trace=False, bui
                     fns = build(log, spied=spied, counter=counter)
                     inv = {getattr(getattr(f, "__wrapped__", f), "__name__"): i for i, f in fns.items()}
                     ao.start_at(fns[start])
+                    if live_at >= 1:
+                        ao.live_spy, ao.live_trace = live_spy, live_trace
                     per_step.append(visible(log))
                     del log[:]
 
@@ -148,7 +155,11 @@ def explore(run, n_random, with_active=True):
                 for ls, lt in flags:
                     if host == "active" and rng.random() < 0.5:
                         continue          # thread start-up is the expensive part: sample
-                    steps, final, err = run_config(c, start, evs, host, spied, ls, lt, query=query)
+                    live_at = 0
+                    if (ls or lt) and rng.random() < 0.4:
+                        live_at = 1 if (host == "active" or rng.random() < 0.6) else rng.randint(2, len(evs) + 1)
+                        run.count("live flags switched on after start_at")
+                    steps, final, err = run_config(c, start, evs, host, spied, ls, lt, query=query, live_at=live_at)
                     run.traces_validated += 1
                     run.count("host=%s spied=%s" % (host, spied))
                     same = flat(steps) == flat(ref_steps) and final == ref_final and err == ref_err
@@ -157,7 +168,7 @@ def explore(run, n_random, with_active=True):
                                     "host %s, %s, live_spy=%s live_trace=%s: actions %s (final %s, %s) differ from the plain processor's %s (final %s, %s)"
                                     % (host, "spied" if spied else "un-spied", ls, lt, flat(steps)[:30], final, err,
                                        flat(ref_steps)[:30], ref_final, ref_err),
-                                    dict(cj, host=host, spied=spied, live_spy=ls, live_trace=lt))
+                                    dict(cj, host=host, spied=spied, live_spy=ls, live_trace=lt, live_at=live_at))
         # only some of the states carry the decorator (the start state among them or not)
         some = frozenset(i for i in range(1, c.n + 1) if rng.random() < 0.5)
         if some and len(some) < c.n:
@@ -237,6 +248,10 @@ def replay(case):
     for host in HOSTS:
         for spied in (False, True):
             print(host, spied, run_config(c, cc["start"], cc["events"], host, spied, query=cc.get("query", False)))
+    if "live_at" in cc:
+        print(cc["host"], "live flags", cc.get("live_spy"), cc.get("live_trace"), "switched on at step", cc["live_at"],
+              run_config(c, cc["start"], cc["events"], cc["host"], bool(cc["spied"]), cc.get("live_spy", False), cc.get("live_trace", False),
+                         query=cc.get("query", False), live_at=cc["live_at"]))
     if isinstance(cc.get("spied"), list):
         print(cc["host"], "mixed", run_config(c, cc["start"], cc["events"], cc["host"], frozenset(cc["spied"]), query=cc.get("query", False)))
     return 0
